@@ -43,6 +43,8 @@ class B:
     def render(self, rich=True, **force):
         r = self.r
         rd = {'form': r.choice(['mem', 'mem', 'json', 'yaml'])}
+        if self.world.get('no_json') and rd['form'] == 'json':
+            rd['form'] = 'yaml'
         if rich:
             if r.random() < 0.5:
                 rd['perm'] = r.randint(1, 1000)
@@ -309,7 +311,7 @@ def gen_c04(r, knobs=None):
                 if not rt.get('overrides') and r.random() < 0.15:
                     # name mode under its documented contract (DESIGN.md A4): fixed config names, no context
                     pmode = False
-                    rd = {'form': r.choice(['mem', 'json']), 'perm': r.choice([0, 5])}
+                    rd = {'form': r.choice(['mem', 'json'] if not world.get('no_json') else ['mem', 'yaml']), 'perm': r.choice([0, 5])}
                 live.append(b.build(root, rd, pmode=pmode))
             elif t < 0.7:
                 cid = r.choice(live)
@@ -399,10 +401,20 @@ def gen_c07(r, knobs=None):
     world = gen.gen_world(r, kn)
     b = B(world, r)
     nproc = r.randint(1, 3)
+    # name mode (A4): no context; and - for set-driven recompute, whose order is arbitrary - no config mounted twice
+    # (two task objects on one name-mode location would make the set of runs depend on that order)
+    plain_roots = [i for i, rt in enumerate(world['roots']) if not rt.get('overrides') and
+                   len({(it.slug, it.cfg) for it in b.model(i).values()}) == len(b.model(i))]
+    name_mode = bool(plain_roots) and r.random() < 0.25
     for pi in range(nproc):
         b.proc(hs=r.choice([0, 1]))
         root = r.randrange(len(world['roots']))
-        live = [b.build(root, b.render(rich=r.random() < 0.4))]
+        if name_mode:
+            # name mode under its documented contract (A4): no context, config names fixed per rendering
+            root = r.choice(plain_roots)
+            live = [b.build(root, {'form': r.choice(['mem', 'json'] if not world.get('no_json') else ['mem', 'yaml']), 'name_suffix': r.choice(['', '_v2'])}, pmode=False)]
+        else:
+            live = [b.build(root, b.render(rich=r.random() < 0.4))]
         # populate part of the store
         names = b.names(live[0])
         for n in r.sample(names, r.randint(0, len(names))):
@@ -422,6 +434,8 @@ def gen_c07(r, knobs=None):
                 b.req(cid, r.choice(names))
             elif t < 0.92:
                 _inspect(b, cid, ['has_data', 'flags', 'flags', 'tasks_df'])
+            elif name_mode:
+                live.append(b.build(r.choice(plain_roots), {'form': 'mem', 'name_suffix': r.choice(['', '_v2', '0'])}, pmode=False))
             else:
                 root2 = r.randrange(len(world['roots']))
                 live.append(b.build(root2, b.render(rich=False)))
@@ -461,6 +475,11 @@ def gen_c06(r, knobs=None):
                 b.req(c2, n)
     for _ in range(r.randint(1, 2)):
         b.proc(hs=r.choice([0, 1, 2]))
+        if r.random() < 0.4:
+            # a chain whose caller scribbles over the loaded value, then later chains of the same process load it again
+            cm = b.build(0, b.render(rich=False))
+            b.req(cm, r.choice(b.names(cm)), mutate=True)
+            b.op(op='drop', cid=cm)
         c = b.build(0, b.render(rich=r.random() < 0.3))
         order = list(b.names(c))
         r.shuffle(order)
@@ -530,4 +549,99 @@ def gen_c13(r, knobs=None):
                     b.op(op='mforce', mid=mid, tasks=ns, names=ns, recompute=r.random() < 0.4, delete=dele)
             else:
                 _inspect(b, r.choice(live), ['has_data', 'flags', 'data_path'])
+    return b.scenario()
+
+
+def gen_c18(r, knobs=None):
+    """histories mixing successful runs, failing runs (own run or an upstream's), retries in the same chain, in a new chain
+    of the same process and in a new process, forced recomputations, several chains holding tasks of the same full name;
+    run info and log inspected after every step."""
+    kn = {'kinds': PERSISTED_KINDS, 'n_roots': (1, 3), 'n_pipes': (1, 3), 'p_twin': 0.35}
+    kn.update(knobs or {})
+    world = gen.gen_world(r, kn)
+    b = B(world, r)
+    for pi in range(r.randint(1, 3)):
+        b.proc(hs=r.choice([0, 1]))
+        live = []
+        for _ in range(r.randint(3, 10)):
+            t = r.random()
+            if not live or t < 0.18:
+                root = r.randrange(len(world['roots']))
+                live.append(b.build(root, b.render(rich=r.random() < 0.4)))
+                continue
+            cid = r.choice(live)
+            names = b.names(cid)
+            name = r.choice(names)
+            if t < 0.45:
+                insts = b.insts(cid)
+                ups = [name] + sorted(_upstream_names(insts[name]))
+                b.op(op='armrun', slug=insts[r.choice(ups)].slug, kind=r.choice(RUN_FAULTS), at=r.choice([0, 1]))
+                b.req(cid, name)
+                if r.random() < 0.5:
+                    # retry through a new chain of the same process (same logger names)
+                    cid = b.build(b.chain_info[cid][0], b.render(rich=False))
+                    live.append(cid)
+                    name = r.choice([n for n in b.names(cid) if n.split('::')[-1] == name.split('::')[-1]] or b.names(cid))
+                b.req(cid, name)
+                b.op(op='disarm')
+            elif t < 0.65:
+                if r.random() < 0.5:
+                    b.op(op='tforce', cid=cid, task=name, name=name, delete=False)
+                else:
+                    b.op(op='cforce', cid=cid, tasks=[name], names=[name], recompute=r.random() < 0.5, delete=False)
+                b.req(cid, name)
+            else:
+                b.req(cid, name)
+            b.op(op='insp', cid=cid, kind='run_info')
+            b.op(op='insp', cid=cid, kind='log')
+    return b.scenario()
+
+
+def gen_c12(r, knobs=None):
+    """upgrade history: simulated processes running the frozen release-1.4.0 tree compute and persist results; later
+    processes running the current tree (other hash seed) on the same data directory must find, load and not recompute
+    every one of them, at the documented layout, with run info and log beside the result."""
+    kn = {'kinds': PERSISTED_KINDS, 'n_roots': (1, 3), 'n_pipes': (1, 4), 'no_for_ns': True, 'p_twin': 0.0,
+          'families': ['int', 'int', 'str', 'float', 'bool', 'list', 'dict', 'none_or_int', 'placeholder', 'obj', 'objlist', 'intdict']}
+    kn.update(knobs or {})
+    # the old release has defects of its own (e.g. tasks of one config mounted under several namespaces are one object
+    # with the first mounting's wiring); its processes only get roots outside those zones: every config mounted once
+    for _ in range(20):
+        world = gen.gen_world(r, kn)
+        roots = [i for i, rt in enumerate(world['roots']) if len({ci for _, ci in A.mounts(world, rt)}) == len(A.mounts(world, rt))]
+        if roots:
+            break
+    b = B(world, r)
+    renders = {}
+    pmode = r.random() < 0.85
+    if not pmode:
+        nm = [i for i in roots if not world['roots'][i].get('overrides')]
+        if nm:
+            roots = nm
+        else:
+            pmode = True
+    b.proc(hs=r.choice([0, 1, 2]), tree='v140')
+    for root in roots:
+        rd = b.render(rich=True)
+        rd.pop('name_suffix', None) if not pmode else None
+        renders[root] = rd
+        cid = b.build(root, rd, pmode=pmode)
+        names = b.names(cid)
+        for n in r.sample(names, r.randint(max(1, len(names) // 2), len(names))):
+            b.req(cid, n)
+    for _ in range(r.randint(1, 2)):
+        b.proc(hs=r.choice([0, 1, 2]))
+        order = list(roots)
+        r.shuffle(order)
+        for root in order:
+            cid = b.build(root, renders[root], pmode=pmode)
+            b.op(op='insp', cid=cid, kind='has_data')
+            b.op(op='insp', cid=cid, kind='data_path')
+            names = list(b.names(cid))
+            r.shuffle(names)
+            for n in names:
+                b.req(cid, n)
+            b.op(op='insp', cid=cid, kind='run_info')
+            b.op(op='insp', cid=cid, kind='log')
+            b.op(op='insp', cid=cid, kind='has_data')
     return b.scenario()
